@@ -248,6 +248,31 @@ pub fn client_cases(ctx: &Arc<SimCtx>, seq: &[WirePdu], counters: &mut Counters,
             let mut stream = reply.bytes[..*s].to_vec();
             stream.extend_from_slice(&c);
             stream.extend_from_slice(&reply.bytes[end..]);
+            // A PDU of fixed size (Cache Response, Cache Reset, prefix PDUs,
+            // End of Data) whose length field says something else: the step
+            // must not complete ("a header that announces a wrong length ends
+            // in an error").
+            let ty = reply.bytes[*s + 1];
+            let orig_len = u32::from_be_bytes([reply.bytes[*s + 4], reply.bytes[*s + 5], reply.bytes[*s + 6], reply.bytes[*s + 7]]);
+            let fixed = matches!(ty, 3 | 4 | 6 | 7 | 8);
+            if fixed && ann != orig_len && c[..4] == reply.bytes[*s..*s + 4] {
+                let name = format!("{}@pdu{}", cname, i);
+                let short = ctx.chance(1, 2);
+                ctx.ev(71, stream.len() as u64, || format!("client case {} (fixed-size PDU with another length, short reads={})", name, short));
+                let o = run_case(&rt, ctx, &reply, &stream, true, short)?;
+                out.evaluations += 1;
+                out.sub_sigs.push(fnv(&stream[..stream.len().min(256)]) ^ (stream.len() as u64) << 40 ^ 0x7f);
+                counters.bump("fault_client_fixed_size_pdu_with_wrong_length");
+                if let Some(Ok(())) = o.res {
+                    return Err(Violation::new(
+                        "client-accepted-wrong-length",
+                        format!("pdu-type-{}", ty),
+                        format!("Client::step() completed on a reply whose PDU #{} (type {}, fixed size {}) announces length {}; reply: {}", i, ty, orig_len, ann, reply.what),
+                    ));
+                }
+                judge(&reply, &name, &stream, true, None, &o)?;
+                continue;
+            }
             case(format!("{}@pdu{}", cname, i), &stream, true, None, counters, out)?;
             counters.bump("fault_client_header_corruption");
         }
